@@ -12,7 +12,7 @@ use std::collections::BTreeSet;
 /// label spellings: (text as written in the file, label the parser must report)
 pub fn label_pool() -> Vec<(String, String)> {
     let plain = ["a", "b1", "7", "and", "or", "neg", "imp", "iff", "xor", "c", "s", "ac", "v", "f", "andy", "negx", "c1", "Zz9"];
-    let quoted = ["a b", "", "and(a,b)", "c(v)", "x.y", "\u{fc}", "s(q).", " lead", "1,2", "a_20_b", "_"];
+    let quoted = ["a b", "", "and(a,b)", "c(v)", "x.y", "\u{fc}", "s(q).", " lead", "1,2", "a_20_b", "_", "(a", "a)", ")(a"];
     let mut v: Vec<(String, String)> = plain.iter().map(|s| (s.to_string(), s.to_string())).collect();
     v.extend(quoted.iter().map(|s| (format!("\"{}\"", s), s.to_string())));
     v
